@@ -213,6 +213,9 @@ class Ctx:
         self.log("end", node)
         self.peek()
         self.stall(node)
+        if self.h.get("tupleret") and node % 2 == 1:
+            # a result is any object: a tuple (empty, or a pair) for instance
+            self.ret[node] = () if node % 4 == 1 else (node, "x")
         if self.h.get("awaitable") and node % 2 == 0:
             # the object a body returns may itself be awaitable (a future, a task handle):
             # it is the job's result as it stands, settled (1) or still pending (2)
@@ -468,12 +471,24 @@ def build(ctx):
         # a label is optional
         return None if ctx.h.get("nolabel") and node % 3 == 0 else "n%d" % node
 
-    def mk(node):
+    # the documented defaults: a caller who wants them does not have to spell them
+    DEFAULTS = dict(jobs_window=None, timeout=None, shutdown_timeout=1, watch=None, verbose=False,
+                    critical=True, forever=False, label=None)
+
+    def spelled(kwds):
+        if not ctx.h.get("omitdefaults"):
+            return kwds
+        return {key: val for key, val in kwds.items()
+                if not (key in DEFAULTS and (val is DEFAULTS[key] or
+                                             (type(val) is type(DEFAULTS[key]) and val == DEFAULTS[key])))}
+
+    def mk(node, owner=None):
         if ctx.g("kind", node) == "job":
             klass = CJob if ctx.hk("flavour", node, "abs") == "job" else VJob
+            extra = {} if owner is None else {"scheduler": owner}
             if ctx.h.get("lateattr"):
                 # flags are plain attributes too: built with the defaults, assigned afterwards
-                ctx.obj[node] = klass(node, label=label_of(node))
+                ctx.obj[node] = klass(node, label=label_of(node), **extra)
                 if node % 2:
                     ctx.obj[node].critical = ctx.g("crit", node)
                     ctx.obj[node].forever = ctx.g("forever", node)
@@ -481,11 +496,12 @@ def build(ctx):
                     # ... also once the job has joined its scheduler
                     deferred.append(node)
             else:
-                ctx.obj[node] = klass(node, critical=ctx.g("crit", node),
-                                      forever=ctx.g("forever", node),
-                                      label=label_of(node))
+                ctx.obj[node] = klass(node, **spelled(dict(critical=ctx.g("crit", node),
+                                                           forever=ctx.g("forever", node),
+                                                           label=label_of(node))), **extra)
             return ctx.obj[node]
-        members = [mk(k) for k in kids[node]]
+        style = ctx.h.get("addstyle", "ctor")
+        members = [] if style == "topdown" else [mk(k) for k in kids[node]]
         win = ctx.g("win", node)
         tmo = ctx.g("tmo", node)
         stmo = ctx.g("stmo", node)
@@ -511,16 +527,26 @@ def build(ctx):
             # the settings are plain attributes: they may be assigned after construction
             late = {key: kwds[key] for key in ("jobs_window", "timeout", "shutdown_timeout")}
             kwds.update(jobs_window=1, timeout=7, shutdown_timeout=5)
-        # the members may be given to the constructor, or added afterwards, one by one or in bulk
-        style = ctx.h.get("addstyle", "ctor")
+        # the members may be given to the constructor, or added afterwards, one by one or in bulk,
+        # or the tree may be built from the top: a scheduler joins its parent while still empty
         first = members if style == "ctor" else []
         if node == 1 and cfg["pure"]:
-            ctx.obj[node] = VPure(node, *first, **kwds)
+            ctx.obj[node] = VPure(node, *first, **spelled(kwds))
         else:
             ctx.obj[node] = VSched(node, *first,
-                                   critical=ctx.g("crit", node),
-                                   forever=ctx.g("forever", node),
-                                   label=label_of(node), **kwds)
+                                   **spelled(dict(critical=ctx.g("crit", node),
+                                                  forever=ctx.g("forever", node),
+                                                  label=label_of(node), **kwds)))
+        if style == "topdown":
+            if node != 1:
+                ctx.obj[ctx.g("parent", node)].add(ctx.obj[node])
+            for k in kids[node]:
+                if ctx.g("kind", k) == "job" and k % 2:
+                    mk(k, ctx.obj[node])                # joins through scheduler=
+                else:
+                    child = mk(k)
+                    if ctx.g("kind", k) == "job":
+                        ctx.obj[node].add(child)
         if node == 1 and style != "ctor" and ctx.h.get("earlycoro") and ctx.cfg.get("ucancel", -1) < 0:
             # co_run() is a coroutine function: calling it does nothing until the result is
             # awaited; the scheduler may still be filled in between
@@ -551,6 +577,11 @@ def build(ctx):
         ctx.coros.append(ctx.early)
     edges = [(i, r) for i in range(2, n + 1) for r in ctx.g("req", i)]
     prep = ctx.h.get("prep", 0)
+    seq_edges = []
+    if prep == 6:
+        # the first requirement of each job is declared through a Sequence only (below)
+        seq_edges = [(i, ctx.g("req", i)[0]) for i in range(2, n + 1) if ctx.g("req", i)]
+        edges = [e for e in edges if e not in seq_edges]
     half = len(edges) // 2 if prep == 1 else len(edges)
     for i, r in edges[:half]:
         ctx.obj[i].requires(ctx.obj[r])
@@ -599,6 +630,20 @@ def build(ctx):
             sched.successors_downstream(ctx.obj[r])
             sched.check_cycles()
             sched.bypass_and_remove(mid)
+    if prep == 5:
+        # keep_only() with everything the tree holds: "any job not belonging in self is ignored",
+        # so nothing changes anywhere
+        everything = list(top.iterate_jobs(scan_schedulers=True))
+        for s in range(1, n + 1):
+            sched = ctx.obj[s]
+            if isinstance(sched, PureScheduler):
+                sched.keep_only(everything)
+    if prep == 6:
+        # one requirement of each job is declared again through a Sequence with an empty
+        # sequence in the middle: Sequence(r, Sequence(), j) says no more than "j requires r"
+        from asynciojobs import Sequence
+        for i, r in seq_edges:
+            Sequence(ctx.obj[r], Sequence(), ctx.obj[i])
     if prep == 4:
         # a requirement is swapped for another one and swapped back, with queries in
         # between: the numbers of jobs and of requirements never change
